@@ -1,5 +1,6 @@
 import HyperModel.Proofs.Snow
 import HyperModel.Proofs.SnowLink
+import HyperModel.Proofs.SnowCache
 /-! # C20 The consensus wrapper drives the chain through a valid block lifecycle
 
 Model: `HyperModel/Model/Snow.lean` (transcription of `snow/block.go`, `snow/vm.go`,
@@ -226,35 +227,63 @@ theorem notifications_match_decisions {c p w g y} (h : ReachOK c p w g y) :
   simp only [List.length_append, List.length_map] at h2
   rw [hl.nacc, List.length_cons, h1]; omega
 
-/-- **lookups_return_accepted_chain (partial)** — `LastAccepted` returns the engine's last accept
-decision (or the initial block), and the VM's last accepted object is that block.
-Not proved: `GetBlock`/`GetBlockByHeight` for older accepted blocks within index retention (needs
-the invariant relating the two FIFO caches and the index to the accepted chain; these lookups are
-compared with the model and checked by the oracle on every run). -/
-theorem lookups_return_accepted_chain_partial {c p w g y} (h : ReachOK c p w g y) (hc : y.s.crashed = false) :
-    step y.s .last = (y.s, .id y.e.lastAcc.id) ∧ y.e.lastAcc = lastOr g y.e.accepts := by
-  have hl := link_reachOK h
-  refine ⟨?_, hl.chain.2.symm⟩
-  simp [HyperModel.Snow.step, hc, hl.la.1]
+theorem normal_match (op : Op) :
+    normal op = true → (match op with | .start _ | .finish _ _ => false | _ => true) = true := by
+  cases op <;> simp [normal]
 
-/-- **queue_drains (partial)** — the accepter's steps never wait for the engine: whenever a block is
-in flight `fin` succeeds and shortens the pipeline by one; whenever the accepter is idle and the
-channel is non-empty `deq` takes the next block unless its parent lookup fails.  Neither depends on
-`chainLock`/engine state.  Not proved: that under `EngineOK` (with its retention condition on
-`accept`) the parent lookup cannot fail. -/
-theorem queue_drains_partial (s : State) :
-    (∀ h pa, s.inflight = some (h, pa) → (fin s).2 = .ok ∧ (fin s).1.pend.length + 1 = s.pend.length) ∧
-    (∀ h rest, s.inflight = none → s.queue = h :: rest →
-      (s.view (s.getBlock (s.obj h).blk.parent)).isSome = true →
-      (deq s).2 = .ok ∧ (deq s).1.pend = s.pend ∧ ((deq s).1.inflight.map (·.1)) = some h) := by
-  refine ⟨?_, ?_⟩
-  · intro h pa hi
+theorem cache_reachOK {c p w g y} (h : ReachOK c p w g y) : Cache g y.s y.e ∧ y.s.crashed = false := by
+  induction h with
+  | init => exact ⟨Cache.init c p w g, by simp [Sys.init, HyperModel.Snow.init, State.emit, State.setLastAccepted]⟩
+  | @step y op hr hn hp ih =>
+    have hn' := normal_match op hn
+    have hl := link_reachOK hr
+    have hh := heap_reach hr.reach
+    exact ⟨ih.1.step hl hh op hn' hp, no_crash_step ih.1 hl op hn' ih.2⟩
+
+/-- **lookups_return_accepted_chain** — for every `EngineOK` history and every placement of the
+accepter's steps: `LastAccepted` is the engine's last accept decision; for every accepted block `b`
+(the initial block or an accept decision) within index retention (`window = 0`, or fewer than
+`window` heights below the tip) `GetBlock(b.id)` returns an object carrying exactly `b` (the accepted
+object from the cache or a bare copy from the index, whatever the caches evicted), and
+`GetBlockByHeight(b.height)` returns an object carrying exactly `b`.
+No id-uniqueness assumption on parsed blocks is needed: the proof only uses that accepted ids are
+pairwise distinct, which follows from `EngineOK` (a decided id is never verified again). -/
+theorem lookups_return_accepted_chain {c p w g y} (h : ReachOK c p w g y) (b : Blk) (hb : b ∈ g :: y.e.accepts)
+    (hret : y.s.idx.window = 0 ∨ y.e.lastAcc.height < b.height + y.s.idx.window) :
+    step y.s .last = (y.s, .id y.e.lastAcc.id) ∧ y.e.lastAcc = lastOr g y.e.accepts ∧
+    (∃ j, (step y.s (.get b.id)).2 = .handle j ∧ ((step y.s (.get b.id)).1.obj j).blk = b) ∧
+    (∃ j, (step y.s (.getH b.height)).2 = .handle j ∧ ((step y.s (.getH b.height)).1.obj j).blk = b) := by
+  have hl := link_reachOK h
+  have hh := heap_reach h.reach
+  obtain ⟨hc, hcr⟩ := cache_reachOK h
+  refine ⟨by simp [HyperModel.Snow.step, hcr, hl.la.1], hl.chain.2.symm, ?_, ?_⟩
+  · have := get_accepted hc hl hh b hb hret
+    simpa [HyperModel.Snow.step, hcr] using this
+  · have := getH_accepted hc hl hh b hb hret
+    simpa [HyperModel.Snow.step, hcr] using this
+
+/-- **queue_drains** — for every `EngineOK` history (including the listed configuration assumption
+`window = 0 ∨ pending + 1 < window` on `accept`): the accepter never crashes; whenever a block is in
+flight `fin` succeeds and shortens the pipeline by one; whenever the accepter is idle and the channel
+is non-empty `deq` succeeds (its parent lookup finds the parent: it is an accepted block within
+index retention), keeps the pipeline and puts the head in flight.  Neither step depends on
+`chainLock` or engine state, so the pipeline of `n` blocks drains in `2n` accepter steps. -/
+theorem queue_drains {c p w g y} (h : ReachOK c p w g y) :
+    y.s.crashed = false ∧
+    (∀ j pa, y.s.inflight = some (j, pa) → (fin y.s).2 = .ok ∧ (fin y.s).1.pend.length + 1 = y.s.pend.length) ∧
+    (∀ j rest, y.s.inflight = none → y.s.queue = j :: rest →
+      (deq y.s).2 = .ok ∧ (deq y.s).1.pend = y.s.pend ∧ ((deq y.s).1.inflight.map (·.1)) = some j) := by
+  have hl := link_reachOK h
+  obtain ⟨hc, hcr⟩ := cache_reachOK h
+  refine ⟨hcr, ?_, ?_⟩
+  · intro j pa hi
     simp [fin, hi, State.pend]
     rfl
-  · intro h rest hi hq hv
-    cases hview : s.view (s.getBlock (s.obj h).blk.parent) with
-    | none => simp [hview] at hv
-    | some p => simp [deq, hi, hq, hview, State.pend]
+  · intro j rest hi hq
+    have hf := deq_parent_found hc hl j rest hi hq
+    cases hview : y.s.view (y.s.getBlock (y.s.obj j).blk.parent) with
+    | none => simp [hview] at hf
+    | some p' => simp [deq, hi, hq, hview, State.pend]
 
 /-- **preference_only_set_by_engine** — no call other than `SetPreference` (and no accepter step) changes
 the VM's preference; in particular `Accept`/`setLastAccepted` does not reset it to the accepted
